@@ -131,6 +131,7 @@ type SideOblig struct {
 }
 
 type Exec struct {
+	quantTypes    map[*Term][]types.Type // forall term -> Go types of its bound variables (for replay witnesses)
 	fnvWrites     []fnvWrite
 	folding       int
 	foldedCells   map[int]bool
@@ -1658,6 +1659,7 @@ func (x *Exec) runFrom(fr *Frame, st *State, b *ssa.BasicBlock, i int) []Outcome
 				return res
 			case *ssa.Go:
 				// the new goroutine is a task that runs later (verifspec.RunSpawned runs the pending ones)
+				x.noteTrusted("go statement: the spawned goroutine is a task that runs at some later point (modelled by the ghost task queue)")
 				sp := spawn{}
 				for _, a := range ins.Call.Args {
 					sp.args = append(sp.args, x.val(fr, a))
